@@ -1,2 +1,12 @@
 import BB.Driver.StoreCommon
-def main : IO Unit := BB.Driver.loop BB.Driver.StoreCommon.step {}
+import BB.Driver.SectorWriter
+/-- Lines starting with `sw-` go to the sector-writer model, everything else to the store model. -/
+def step (s : BB.Driver.StoreCommon.S × BB.Driver.SectorWriter.S) (line : String) :
+    (BB.Driver.StoreCommon.S × BB.Driver.SectorWriter.S) × String :=
+  if line.startsWith "sw-" then
+    let (b, out) := BB.Driver.SectorWriter.step s.2 line
+    ((s.1, b), out)
+  else
+    let (a, out) := BB.Driver.StoreCommon.step s.1 line
+    ((a, s.2), out)
+def main : IO Unit := BB.Driver.loop step ({}, {})
